@@ -156,8 +156,16 @@ def build_case(data, pats):
             'system': system, 'perturbations': kinds}
 
 
+def fuzz_one(data):
+    case = build_case(bytes(data).ljust(200, b'\0')[:200], all_patterns())
+    return check_case(case), case
+
+
 def _shard(ctx, shard, nshards):
     pats = all_patterns()
+    if shard == 1 and not ctx.quick:
+        from vlib import fuzz
+        fuzz.campaign(ctx, 'c06', 120000)
     if shard == 0:
         ctx.notes['live_pattern_pairs'] = [list(p) for p in live_patterns()]
 
